@@ -38,8 +38,37 @@ def _f(line):
     return f + ["?"] * (6 - len(f))
 
 
+def _far_null(case):
+    """Does a message of the case contain a far pointer whose landing pad word is null (observation O3)?"""
+    try:
+        f = case.split()
+        for col in (5, 11):
+            if f[col] in ("_", "-"):
+                continue
+            segs = []
+            for h in f[col].split(","):
+                if h.startswith("Z"):
+                    n, pre = h[1:].split(":")
+                    b = bytes.fromhex(pre) if pre not in ("", "-") else b""
+                    segs.append(b + bytes(int(n) - len(b)))
+                else:
+                    segs.append(bytes.fromhex(h) if h not in ("-", "_") else b"")
+            for s in segs:
+                for k in range(0, len(s) - 7, 8):
+                    w = int.from_bytes(s[k:k + 8], "little")
+                    if w & 3 == 2 and w & 4 == 0:
+                        sid, off = w >> 32, ((w & 0xffffffff) >> 3) * 8
+                        if sid < len(segs) and off + 8 <= len(segs[sid]) and segs[sid][off:off + 8] == bytes(8):
+                            return True
+    except Exception:
+        pass
+    return False
+
+
 def classify(run, case, impl, model):
     kind = case.split()[0].split("/")
+    if _far_null(case):
+        kind = [kind[0] + "+farnull"] + kind[1:]
     i, m = _f(impl), _f(model)
     what = "res"
     if i[0] == m[0]:
